@@ -191,7 +191,7 @@ func (g *IG) loopExactlyOnce(nodes map[int]bool) (bool, string) {
 		return false, "no such call"
 	}
 	why := "the call is not inside a loop"
-	for _, ifi := range ifsOf(g.Fn) {
+	for _, ifi := range g.ifs() {
 		hn := g.Idx[ifi]
 		for _, outcome := range []bool{true, false} {
 			e := g.branchEdge(ifi, outcome)
